@@ -339,7 +339,10 @@ fn diagrams(tr: &mut Tr, args: &Args, rng: &mut Rng) {
     for (name, eos, tc) in models.iter() {
         for _ in 0..nconf {
             let n = 3 + rng.below(if args.thorough { 38 } else { 14 });
-            let tmin = Temperature::from_reduced(tc * rng.range(0.5, 0.8));
+            // every third configuration starts far below the range in which the solver converges (first points fail and are dropped by both drivers)
+            let low = rng.below(3) == 0;
+            let tmin = Temperature::from_reduced(tc * if low { rng.range(0.02, 0.15) } else { rng.range(0.5, 0.8) });
+            let n = if low { n + 20 } else { n };
             let seq = PhaseDiagram::pure(eos, tmin, n, None, SolverOptions::default());
             let Ok(seq) = seq else { continue };
             tr.ev(diagram_event("seq", name, n, 0, 0, &seq));
